@@ -261,8 +261,9 @@ fn run_multi(input: &Value) -> Value {
     use domain::net::client::request::SendRequest;
     use std::sync::{Arc, Mutex};
     use std::time::Duration;
-    let tick = Duration::from_secs(100);
     let cfg = &input["cfg"];
+    // the length of a tick is the specification's (TickMs)
+    let tick = Duration::from_millis(cfg.get("tickms").and_then(|t| t.as_u64()).unwrap_or(100_000));
     let nreq = num(cfg, "nreq") as usize;
     let ops = input["ops"].as_array().cloned().unwrap_or_default();
     let rt = runtime();
@@ -389,6 +390,9 @@ fn try_dgst(input: &Value) -> Option<Value> {
         tokio::spawn(counted(transport.run(), &act));
         let comp: Completions = Arc::new(Mutex::new(vec![]));
         let mut clock = Clock::new();
+        // the length of a tick is the specification's (TickMs)
+        let tick = std::time::Duration::from_millis(cfg.get("tickms").and_then(|t| t.as_u64()).unwrap_or(10_000));
+        let mut now: i64 = 0;
         let mut t_done: i64 = -1;
         let mut hang = !settle(&act).await;
         let mut obs = vec![];
@@ -446,7 +450,10 @@ fn try_dgst(input: &Value) -> Option<Value> {
                         peer.close();
                     }
                 }
-                "tick" => clock.advance(TICK).await,
+                "tick" => {
+                    clock.advance(tick).await;
+                    now += 1;
+                }
                 _ => return Some(json!({"bad_op": op})),
             }
             if !hang && !settle(&act).await {
@@ -470,7 +477,7 @@ fn try_dgst(input: &Value) -> Option<Value> {
             let mut done = vec![];
             for (_, o, _) in comp.lock().unwrap().iter() {
                 if t_done < 0 {
-                    t_done = clock.ticks() as i64; // submit is the first operation, at tick 0
+                    t_done = now; // submit is the first operation, at tick 0
                 }
                 done.push(match o.get("ok") {
                     Some(f) => json!({"ok": true,
